@@ -6,12 +6,30 @@ import ScalesModel.Core.Run
 import ScalesModel.Model.Mux
 namespace Scales.TagPool
 
-/-- configuration: `max_tag` given to the TagPool (the transports use 2^24 − 1) and which
-    transport sink is meant -/
+/-- configuration: `max_tag` given to the TagPool (the transports use 2^24 − 1), which transport
+    sink is meant, and the *age* of the connection: the state of its tag pool when the script
+    starts — high-water mark `next` and the released tags `free`.  A fresh connection has
+    `next = 1`, `free = []` (`TagPool.__init__`); on an aged one earlier traffic has pushed `next`
+    up (past 2^8, past 2^16: tags that need the second and the third tag byte), some of those tags
+    have come back (`free`), the others are still awaiting their answer (`Cfg.held` of them). -/
 structure Cfg where
   max : Nat
   fl : Flavour
+  next : Nat := 1
+  free : List Nat := []
   deriving Repr, DecidableEq
+
+/-- the pool the connection starts with -/
+def Cfg.pool (cfg : Cfg) : Pool := ⟨cfg.free, cfg.next⟩
+
+/-- tags handed out before the script starts and not released: they are awaiting an answer from
+    the peer that does not come within the script (requests in flight, timed-out requests whose
+    Tdiscarded the peer has not answered) -/
+def Cfg.held (cfg : Cfg) : Nat := cfg.next - 1 - cfg.free.length
+
+/-- the transport sink at the start of a script: open, nothing queued, no request of the script in
+    flight yet, the pool as the configuration says -/
+def initSt (cfg : Cfg) : St := St.initWith cfg.pool
 
 /-- observation after a step: the step's own outputs, then the canonical state
     (`_tag_map` keys and the free set sorted, `_next`) -/
@@ -52,10 +70,16 @@ def traceWith (f : Nat → St → Op → St × Out) (cfg : Cfg) : St → List Op
 
 /-! ### codecs -/
 
+def decFl : V → Option Flavour
+  | .a "thriftmux" => some .thriftmux
+  | .a "kafka" => some .kafka
+  | _ => none
+
+/-- `<max>` | `<max> <flavour>` (fresh connection) | `<max> <flavour> <next> <free…>` (aged connection) -/
 def decCfg : List V → Option Cfg
-  | [m] => do pure ⟨← m.nat?, .thriftmux⟩
-  | [m, .a "thriftmux"] => do pure ⟨← m.nat?, .thriftmux⟩
-  | [m, .a "kafka"] => do pure ⟨← m.nat?, .kafka⟩
+  | [m] => do pure { max := ← m.nat?, fl := .thriftmux }
+  | [m, f] => do pure { max := ← m.nat?, fl := ← decFl f }
+  | m :: f :: n :: fr => do pure { max := ← m.nat?, fl := ← decFl f, next := ← n.nat?, free := ← fr.mapM (·.nat?) }
   | _ => none
 
 def decEv : V → Option EvKind
@@ -132,7 +156,10 @@ def decObs : V → Option Obs
     tag, or while no written-and-unanswered request carries it (its request was never written);
   * `reuse` — a request takes a released tag whenever there is one;
   * `highwater` — `next − 1` never exceeds the peak number of tags awaiting an answer
-    (requests in flight plus timed-out requests whose discard the peer has not answered).
+    (requests in flight plus timed-out requests whose discard the peer has not answered).  On an
+    aged connection the tags awaiting an answer are those of the tag map plus the `Cfg.held` ones
+    handed out before the script started and never answered, and the peak so far is `next − 1`
+    (the least the clause itself allows for the connection's past).
 
   C02, multiplexed hop:
   * `own-reply` — when a frame of the peer on tag `t` is delivered to a request and a written,
@@ -163,6 +190,7 @@ structure Acc where
   owed : List Nat := []            -- tags for which a Tdiscarded is due and not yet written
   must : List Nat := []            -- tags of written, unanswered frames whose request timed out: Tdiscarded not yet seen
   inprog : Bool := false           -- a `write` call is in progress (`wbegin` without its `wend`)
+  held : Nat := 0                  -- tags of this connection awaiting an answer since before the script (0 after a re-open)
   deriving Repr
 
 /-- tags of the written, unanswered request frames -/
@@ -214,40 +242,40 @@ def Acc.after (a : Acc) (op : Op) (o : Obs) : Acc :=
                  must := [], inprog := false }
   | .process m t =>
     { a with unans := a.unans.filter (fun p => p.1 != t) ++ reqPairs o.wrote,
-             peak := Nat.max a.peak o.tagmap.length, pfree := o.free,
+             peak := Nat.max a.peak (o.tagmap.length + a.held), pfree := o.free,
              owed := eraseAll a.owed (discTags o.wrote),
              must := mustAfter a (.process m t) o, inprog := inprogAfter a (.process m t) }
   | .req e p =>
-    { a with unans := a.unans ++ reqPairs o.wrote, peak := Nat.max a.peak o.tagmap.length, pfree := o.free,
+    { a with unans := a.unans ++ reqPairs o.wrote, peak := Nat.max a.peak (o.tagmap.length + a.held), pfree := o.free,
              nreq := a.nreq + 1, fired := if e = .pre then a.nreq :: a.fired else a.fired,
              owed := eraseAll a.owed (discTags o.wrote),
              must := mustAfter a (.req e p) o, inprog := inprogAfter a (.req e p) }
   | .fire rid =>
-    { a with unans := a.unans ++ reqPairs o.wrote, peak := Nat.max a.peak o.tagmap.length, pfree := o.free,
+    { a with unans := a.unans ++ reqPairs o.wrote, peak := Nat.max a.peak (o.tagmap.length + a.held), pfree := o.free,
              fired := rid :: a.fired, owed := eraseAll a.owed (discTags o.wrote),
              must := mustAfter a (.fire rid) o, inprog := inprogAfter a (.fire rid) }
   | .notify rid =>
-    { a with unans := a.unans ++ reqPairs o.wrote, peak := Nat.max a.peak o.tagmap.length, pfree := o.free,
+    { a with unans := a.unans ++ reqPairs o.wrote, peak := Nat.max a.peak (o.tagmap.length + a.held), pfree := o.free,
              owed := eraseAll (a.owed ++ tagsOf a.unans rid) (discTags o.wrote),
              must := mustAfter a (.notify rid) o, inprog := inprogAfter a (.notify rid) }
   | .send =>
-    { a with unans := a.unans ++ reqPairs o.wrote, peak := Nat.max a.peak o.tagmap.length, pfree := o.free,
+    { a with unans := a.unans ++ reqPairs o.wrote, peak := Nat.max a.peak (o.tagmap.length + a.held), pfree := o.free,
              owed := eraseAll a.owed (discTags o.wrote),
              must := mustAfter a .send o, inprog := inprogAfter a .send }
   | .ping =>
-    { a with unans := a.unans ++ reqPairs o.wrote, peak := Nat.max a.peak o.tagmap.length, pfree := o.free,
+    { a with unans := a.unans ++ reqPairs o.wrote, peak := Nat.max a.peak (o.tagmap.length + a.held), pfree := o.free,
              owed := eraseAll a.owed (discTags o.wrote),
              must := mustAfter a .ping o, inprog := inprogAfter a .ping }
   | .wbegin =>
-    { a with unans := a.unans ++ reqPairs o.wrote, peak := Nat.max a.peak o.tagmap.length, pfree := o.free,
+    { a with unans := a.unans ++ reqPairs o.wrote, peak := Nat.max a.peak (o.tagmap.length + a.held), pfree := o.free,
              owed := eraseAll a.owed (discTags o.wrote),
              must := mustAfter a .wbegin o, inprog := inprogAfter a .wbegin }
   | .wend =>
-    { a with unans := a.unans ++ reqPairs o.wrote, peak := Nat.max a.peak o.tagmap.length, pfree := o.free,
+    { a with unans := a.unans ++ reqPairs o.wrote, peak := Nat.max a.peak (o.tagmap.length + a.held), pfree := o.free,
              owed := eraseAll a.owed (discTags o.wrote),
              must := mustAfter a .wend o, inprog := inprogAfter a .wend }
   | .quiet =>
-    { a with unans := a.unans ++ reqPairs o.wrote, peak := Nat.max a.peak o.tagmap.length, pfree := o.free,
+    { a with unans := a.unans ++ reqPairs o.wrote, peak := Nat.max a.peak (o.tagmap.length + a.held), pfree := o.free,
              owed := eraseAll a.owed (discTags o.wrote),
              must := mustAfter a .quiet o, inprog := inprogAfter a .quiet }
 
@@ -273,8 +301,8 @@ def ownReplyBad (a : Acc) (op : Op) (o : Obs) : Option (Nat × Nat) :=
   | .process _ t => (a.unans.filter (fun p => p.1 == t)).find? (fun p => o.delivered.any (· != p.2))
   | _ => none
 
-/-- verdict for one step; `a` is the accumulator *before* the step -/
-def specObs (cfg : Cfg) (a : Acc) (idx : Nat) (op : Op) (o : Obs) : Verdict :=
+/-- the C11 clauses for one step; `a` is the accumulator *before* the step -/
+def specObsTags (cfg : Cfg) (a : Acc) (idx : Nat) (op : Op) (o : Obs) : Verdict :=
   let given := (if isReqOk op o then [o.assigned] else []) ++ reqTags o.wrote
   match given.find? (fun t => decide (t < 2)) with
   | some t => .fail "reserved" [V.ofNat idx, V.ofNat t]
@@ -289,20 +317,29 @@ def specObs (cfg : Cfg) (a : Acc) (idx : Nat) (op : Op) (o : Obs) : Verdict :=
   | none =>
   if isReqOk op o && !a.pfree.isEmpty && !a.pfree.contains o.assigned then
     .fail "reuse" [V.ofNat idx, V.ofNat o.assigned]
-  else if op != .reopen && decide (Nat.max a.peak o.tagmap.length + 1 < o.next) then
-    .fail "highwater" [V.ofNat idx, V.ofNat o.next, V.ofNat (Nat.max a.peak o.tagmap.length)]
-  else
+  else if op != .reopen && decide (Nat.max a.peak (o.tagmap.length + a.held) + 1 < o.next) then
+    .fail "highwater" [V.ofNat idx, V.ofNat o.next, V.ofNat (Nat.max a.peak (o.tagmap.length + a.held))]
+  else .ok
+
+/-- verdict for one step: the C02 clause (a reply handed to another call's request is reported as
+    such, although the same step then also releases a tag the peer has not answered), then the
+    C11 clauses -/
+def specObs (cfg : Cfg) (a : Acc) (idx : Nat) (op : Op) (o : Obs) : Verdict :=
   match ownReplyBad a op o with
   | some p => .fail "own-reply" [V.ofNat idx, V.ofNat p.1, V.ofNat p.2, V.ofNats o.delivered]
-  | none => .ok
+  | none => specObsTags cfg a idx op o
 
 def specGo (cfg : Cfg) (a : Acc) (idx : Nat) : List (Op × Obs) → Verdict
   | [] => .ok
   | (op, o) :: rest =>
     (specObs cfg a idx op o).and (fun _ => specGo cfg (a.after op o) (idx + 1) rest)
 
+/-- the accumulator at the start of a script: nothing written yet; the free set, the peak and
+    the tags still out are those of the connection's starting pool (all empty / 0 on a fresh one) -/
+def Acc.init (cfg : Cfg) : Acc := { peak := cfg.next - 1, pfree := sortNat cfg.free, held := cfg.held }
+
 /-- C11 + C02 (multiplexed hop) -/
-def spec (cfg : Cfg) (h : List (Op × Obs)) : Verdict := specGo cfg {} 0 h
+def spec (cfg : Cfg) (h : List (Op × Obs)) : Verdict := specGo cfg (Acc.init cfg) 0 h
 
 /-- every written Tdiscarded is due; each settles one due entry -/
 def discOk : List Nat → List Nat → Bool
@@ -345,11 +382,12 @@ def specGo12 (cfg : Cfg) (a : Acc) (idx : Nat) : List (Op × Obs) → Verdict
       (fun _ => specGo12 cfg (a.after op o) (idx + 1) rest)
 
 /-- C11 + C02 + C12 (multiplexed hop): what the component evaluates -/
-def spec12 (cfg : Cfg) (h : List (Op × Obs)) : Verdict := specGo12 cfg {} 0 h
+def spec12 (cfg : Cfg) (h : List (Op × Obs)) : Verdict := specGo12 cfg (Acc.init cfg) 0 h
 
-/-! ### hypotheses: the pool is at least as large as the reserved range, and every label is
-    one the code can actually take in the state it is taken in (the harness only reports
-    labels the real run took) -/
+/-! ### hypotheses: the connection starts with a pool in a state the pool can be in (`Pool.wf`:
+    released tags distinct and in `[2, next]`, `1 ≤ next < max` — so the pool is at least as large
+    as the reserved range), and every label is one the code can actually take in the state it is
+    taken in (the harness only reports labels the real run took) -/
 
 def opEnabled (cfg : Cfg) (s : St) (op : Op) : Bool :=
   (stepOp cfg.fl cfg.max s op).2.res != .badop
@@ -358,16 +396,16 @@ def opsOk (cfg : Cfg) (s : St) : List Op → Bool
   | [] => true
   | op :: ops => opEnabled cfg s op && opsOk cfg (stepOp cfg.fl cfg.max s op).1 ops
 
-def cfgWF (cfg : Cfg) : Bool := decide (2 ≤ cfg.max)
+def cfgWF (cfg : Cfg) : Bool := cfg.pool.wf cfg.max
 
 def comp : TComp Cfg St Op Obs where
   decCfg := decCfg
-  init := fun _ => St.init
+  init := initSt
   decOp := decOp
   step := step
   encObs := encObs
   decObs := decObs
   spec := spec12
-  wf := fun cfg ops => cfgWF cfg && opsOk cfg St.init ops
+  wf := fun cfg ops => cfgWF cfg && opsOk cfg (initSt cfg) ops
 
 end Scales.TagPool
